@@ -511,6 +511,10 @@ func (n *Node) Mine(blocks []*Block, announce bool) {
 			_ = n.write(c, inv)
 		}
 	}
+	// an announcement counts as activity: quiescence is not detected before the service had time to react to it
+	n.mu.Lock()
+	n.lastRecv = time.Now()
+	n.mu.Unlock()
 }
 
 // Ready reports whether at least one connection has completed the handshake and is still open.
